@@ -181,7 +181,18 @@ impl TryFrom<Bound<'_, PyAny>> for Value {
                 let v = value.extract::<bool>()?;
                 Ok(Self::Bool(v))
             }
-            "int" | "float" => {
+            "int" => {
+                // keep Python ints as integers; only ints which don't fit 64 bits become floats
+                let n = if let Ok(i) = value.extract::<i64>() {
+                    serde_yaml::Number::from(i)
+                } else if let Ok(u) = value.extract::<u64>() {
+                    serde_yaml::Number::from(u)
+                } else {
+                    serde_yaml::Number::from(value.extract::<f64>()?)
+                };
+                Ok(Self::Number(n))
+            }
+            "float" => {
                 let v = value.extract::<f64>()?;
                 let n = serde_yaml::Number::from(v);
                 Ok(Self::Number(n))
